@@ -159,6 +159,58 @@ impl Property for C12 {
                 }
             }
         })
+        .exhaustive(),
+        // sessions in which the editor's text of a document is empty while the file on disk is not: every
+        // sequence over {r.td v0, i.td v0, i.td v1, r.td emptied, i.td emptied, close r.td, close i.td, an
+        // unrelated document} that begins with an open
+        Family::new("emptied-buffers", 4, move |first, _r, emit| {
+            let code = |e: usize| match e {
+                0 => json!([0, 0]),
+                1 => json!([1, 0]),
+                2 => json!([1, 1]),
+                3 => json!([0, 5]),
+                4 => json!([1, 5]),
+                5 => json!([0, 2]),
+                6 => json!([1, 2]),
+                _ => json!([2, 0]),
+            };
+            let firsts = [0usize, 1, 3, 4];
+            for len in 1..=symlinked_upto {
+                let mut idx = vec![0usize; len];
+                loop {
+                    let mut ev = vec![code(firsts[first as usize % 4])];
+                    ev.extend(idx[1..].iter().map(|e| code(*e)));
+                    if ev.iter().any(|e| e[1] == 5) {
+                        for flavour in ["plain", "no_disk_i", "cyclic"] {
+                            let mut c = json!({"kind": "buffer-session", "events": ev});
+                            if flavour != "plain" {
+                                c[flavour] = json!(true);
+                            }
+                            if !emit(c) {
+                                return;
+                            }
+                        }
+                    }
+                    let mut k = len;
+                    let mut done = false;
+                    loop {
+                        if k == 1 {
+                            done = true;
+                            break;
+                        }
+                        k -= 1;
+                        if idx[k] + 1 < 8 {
+                            idx[k] += 1;
+                            break;
+                        }
+                        idx[k] = 0;
+                    }
+                    if done {
+                        break;
+                    }
+                }
+            }
+        })
         .exhaustive()]
     }
     fn run_case(&self, _ctx: &Ctx, case: &Case) -> Verdict {
@@ -217,7 +269,7 @@ impl Property for C12 {
                 }
                 continue;
             }
-            let (doc, b) = (doc as usize % 2, b as usize % 5);
+            let (doc, b) = (doc as usize % 2, b as usize % 6);
             if b == 3 {
                 // save: the editor says it wrote the document; whatever is on disk, the buffer stays the
                 // truth for an open document (here the disk never changes, so it keeps differing)
@@ -240,7 +292,11 @@ impl Property for C12 {
                 continue;
             }
             // variant 4 (of r.td only): the buffer without its include line - i.td leaves the workspace
-            let text = if b == 4 {
+            // variant 5: the editor's text of the document is empty (everything selected and deleted) - an open
+            // document all the same, and not what is on disk
+            let text = if b == 5 {
+                String::new()
+            } else if b == 4 {
                 "def r_alone;\n".to_string()
             } else if external && b == 0 && disk.contains_key(name(doc)) {
                 disk[name(doc)].clone()
